@@ -354,11 +354,13 @@ Definition create_stmt (fs : list fdesc) (now : Z) (returning reversed : bool) (
   | Some rows =>
       let ret := returning && existsb is_dbdef fs in
       let zs := map (fun k => k =? 0) keys in
+      (* LastInsertId: the last key of the statement, or the first on not-reversed dialects *)
+      let insert_id := if reversed then last_z ids 0 else hd 0 ids in
       let lastids :=
         if ret then map (fun _ => None) recs
         else if negb prio_hasdef || (String.eqb prio "") then map (fun _ => None) recs
-        else if is_struct then map (fun z : bool => if z then Some (last_z ids 0) else None) zs
-        else backfill_lastid reversed (last_z ids 0) zs in
+        else if is_struct then map (fun z : bool => if z then Some insert_id else None) zs
+        else backfill_lastid reversed insert_id zs in
       Some (map2 (fun r rl => after_rec fs now ret prio (fst rl) (snd rl) r) recs (combine rows lastids),
             rows, assign_end base keys)
   end.
@@ -438,7 +440,7 @@ Definition create_maps (fs : list fdesc) (returning reversed : bool) (o : op) (b
             end
           else if has_auto then
             Some (map2 (fun r k => set_key fs r (Some k)) recs
-                       (backfill_maps reversed (last_z ids 0) (length recs)), rows, n)
+                       (backfill_maps reversed (if reversed then last_z ids 0 else hd 0 ids) (length recs)), rows, n)
           else Some (recs, rows, n)
       end
   end.
